@@ -35,6 +35,7 @@ var lpInputs = map[string]string{
 	"lp_comment_first":    "# exported by a tool\n# second comment line\n" + lpInput,
 	"lp_blank_first":      "\n\n" + lpInput,
 	"lp_bom":              "\xef\xbb\xbf" + lpInput,
+	"lp_escaped_meas":     "m\\=1\\\"q\\,r\\ s,t1=a f1=1i,f2=\"s\",ts=\"2021-03-04 05:06:07\",message=\"lpmsg\" 1600000000000000000\nm2,t9=z f9=9i 1600000001000000000\n",
 	"lp_same_key":         "m1,t1=a,dup=tagside f1=1i,f2=\"s\",dup=\"fieldside\",ts=\"2021-03-04 05:06:07\",message=\"lpmsg\" 1600000000000000000\nm2,t9=z f9=9i 1600000001000000000\n",
 	"lp_newline_in_field": "m1,t1=a f1=1i,f2=\"line one\nline two\",ts=\"2021-03-04 05:06:07\",message=\"lpmsg\" 1600000000000000000\nm2,t9=z f9=9i 1600000001000000000\n",
 }
@@ -365,6 +366,9 @@ func replayCli(args []string) (any, error) {
 		}
 		if v.Cfg.Input == "lp_bom" {
 			wantMeas = "\ufeffm1"
+		}
+		if v.Cfg.Input == "lp_escaped_meas" {
+			wantMeas = "m=1\"q,r s" // the name the escapes spell
 		}
 		if v.Out.Meas == "new" {
 			wantMeas = "newm"
